@@ -2,7 +2,7 @@
    evaluation of a is decided with fuel n, and the environments are related, then the optimized
    program evaluated with any fuel m >= n gives a related outcome (or is inexact: Unsup).
    Then: Opt.opt produces an optimized form in this sense. *)
-From P2 Require Import Base.Prelude Base.PreludeProofs Sem.Num Sem.Syntax Sem.Ops Sem.Lib Sem.Ref Sem.Gen Sem.Sim Sem.RelProofs Sem.GenProofs Sem.Opt Sem.OptRel Sem.OptRelProofs Sem.OptOpsProofs Sem.OptLibProofs.
+From P2 Require Import Base.Prelude Base.PreludeProofs Sem.Num Sem.Syntax Sem.Ops Sem.Lib Sem.Ref Sem.Gen Sem.Sim Sem.RelProofs Sem.GenProofs Sem.Opt Sem.OptRel Sem.OptRelProofs Sem.OptOpsProofs Sem.OptLibProofs Sem.RefMono Sem.OptWf.
 Require Import Lia.
 
 (* ---------- names, lookups ---------- *)
@@ -144,11 +144,11 @@ Definition sim_at (n : nat) : Prop :=
     decided (eval n env a) -> R (eval n env a) (eval m env' a').
 
 Lemma R_ok v v' : vrel v v' -> R (Ok v) (Ok v').
-Proof. right. constructor. auto. Qed.
+Proof. rr. constructor. auto. Qed.
 
 Lemma R_inv_ok r v' : decided r -> R r (Ok v') -> exists v, r = Ok v /\ vrel v v'.
 Proof.
-  intros D [H|H]; [discriminate|]. inv H. eauto.
+  intros D H. inv H. eauto.
 Qed.
 
 Lemma undecided_false_ok {A} (r : res A) : decided r -> r <> OOF /\ r <> Unsup.
@@ -164,9 +164,9 @@ Local Notation E' := (eval m).
 Lemma app_sim c c' vs vs' :
   vrel c c' -> Forall2 vrel vs vs' -> decided (r_app E c vs) -> R (r_app E c vs) (r_app E' c' vs').
 Proof.
-  intros Hc Hvs. pose proof Hc as Hc0. inv Hc; cbn [r_app]; try (intros _; right; constructor).
+  intros Hc Hvs. pose proof Hc as Hc0. inv Hc; cbn [r_app]; try (intros _; rr; constructor).
   rewrite <- (Forall2_length' _ _ _ Hvs).
-  destruct (Nat.eqb (length vs) (length ps)) eqn:L; [|intros _; right; constructor].
+  destruct (Nat.eqb (length vs) (length ps)) eqn:L; [|intros _; rr; constructor].
   apply Nat.eqb_eq in L. intros D.
   eapply IH; eauto. apply env_rel_app; auto.
 Qed.
@@ -181,12 +181,12 @@ Lemma list_sim s env env' l l' :
   decided (r_list E env l) -> Rl (r_list E env l) (r_list E' env' l').
 Proof.
   intros Hl He. induction Hl as [|x x' l l' Hx Hl IHl]; cbn [r_list]; intros D.
-  - right. repeat constructor.
+  - rr. repeat constructor.
   - eapply wrel_bind; [exact D|intros; eapply IH; eauto;
       eapply env_rel_weaken; [|exact He]; intros y Hy; apply existsb_cons_l; exact Hy|]. intros v v' _ Hv D2.
     eapply wrel_bind; [exact D2|intros; apply IHl; auto;
       eapply env_rel_weaken; [|exact He]; intros y Hy; apply existsb_cons_r; exact Hy|]. intros ys ys' _ Hys _.
-    right. repeat constructor; auto.
+    rr. repeat constructor; auto.
 Qed.
 
 Lemma switch_sim s env env' sv sv' d d' cases cases' :
@@ -203,7 +203,7 @@ Proof.
       eapply env_rel_weaken; [|exact He]; intros y Hy; right; apply existsb_cons_l; cbn [fst snd];
       unfold fvp in Hy; rewrite Hy; reflexivity|]. intros cv cv' _ Hcv D2.
     rewrite <- (equal_fg_rel known _ _ _ _ Hsv Hcv).
-    destruct (equal_fg sv cv) as [[|]| | | |]; try (right; constructor).
+    destruct (equal_fg sv cv) as [[|]| | | |]; try (rr; constructor).
     + eapply IH; eauto. eapply env_rel_weaken; [|exact He]. intros y Hy; right; apply existsb_cons_l; cbn [fst snd].
       unfold fvp in Hy; rewrite Hy. apply orb_true_r.
     + apply IHc; auto. eapply env_rel_weaken; [|exact He]. intros y [Hy|Hy]; [left; exact Hy|right; apply existsb_cons_r; exact Hy].
@@ -217,7 +217,7 @@ Lemma map_sim s env env' mm mm' acc acc' :
 Proof.
   intros Hm He. revert acc acc'.
   induction Hm as [|[k x] [k' x'] mm mm' [H1 H2] Hm IHm]; intros acc acc' Ha; cbn [r_map]; intros D.
-  - right. constructor. constructor. auto.
+  - rr. constructor. constructor. auto.
   - simpl in H1, H2. subst k'.
     eapply wrel_bind; [exact D|intros; eapply IH; eauto;
       eapply env_rel_weaken; [|exact He]; intros y Hy; apply existsb_cons_l; exact Hy|]. intros v v' _ Hv D2.
@@ -237,6 +237,9 @@ Proof. destruct r; reflexivity. Qed.
 
 Lemma rrel_oof_inv {A B} (Q : A -> B -> Prop) r : rrel Q r OOF -> r = OOF.
 Proof. inversion 1; reflexivity. Qed.
+
+Lemma rrel_ok_inv_r {A B} (Q : A -> B -> Prop) r b : rrel Q r (Ok b) -> exists a, r = Ok a /\ Q a b.
+Proof. inversion 1; subst. eauto. Qed.
 
 Lemma eval_0 env a : eval 0 env a = OOF.
 Proof. reflexivity. Qed.
@@ -279,15 +282,16 @@ Proof.
     | s fn fn' args args' Hfn IHfn Hargs
     | s f args args' Hargs
     | s recv recv' mname args args' Hrecv IHrecv Hargs
-    | s a t t' Ha IHa Hclosed Hseq ];
+    | s a t t' Ha IHa Hclosed Hseq
+    | s a t v Ha IHa Hclosed Hg ];
     intros env env' k Henv Hk D.
-  - (* const *) destruct k as [|k]; [lia|]. right. constructor. auto.
+  - (* const *) destruct k as [|k]; [lia|]. rr. constructor. auto.
   - (* ident *) destruct k as [|k]; [lia|]. rewrite !eval_S. cbn [ref_step].
     destruct Henv as [_ H2].
     assert (Fx : fvp (AIdent x) x) by (unfold fvp; cbn [fv]; apply str_eqb_refl).
-    destruct (H2 x Fx H); right; constructor; auto.
+    destruct (H2 x Fx H); rr; constructor; auto.
   - (* ident const *) destruct k as [|k]; [lia|]. rewrite !eval_S. cbn [ref_step].
-    destruct Henv as [H1 _]. destruct (H1 x c H) as (v & -> & Hv). right. constructor. auto.
+    destruct Henv as [H1 _]. destruct (H1 x c H) as (v & -> & Hv). rr. constructor. auto.
   - (* let *) destruct k as [|k]; [lia|]. rewrite eval_S in D. rewrite !eval_S. cbn [ref_step] in *.
     eapply wrel_bind; [exact D|intros; eapply IHn; eauto; lia|]. intros vv vv' _ Hvv D2.
     eapply IHn; eauto; [eapply env_rel_let; [exact Hvv|exact Henv|]|lia].
@@ -300,7 +304,7 @@ Proof.
     eapply IHn; eauto; [apply env_rel_let_const; auto|lia].
   - (* if *) destruct k as [|k]; [lia|]. rewrite eval_S in D. rewrite !eval_S. cbn [ref_step] in *.
     eapply wrel_bind; [exact D|intros; eapply IHn; eauto; lia|]. intros cv cv' _ Hcv D2.
-    inv Hcv; try (right; constructor).
+    inv Hcv; try (rr; constructor).
     destruct b; eapply IHn; eauto; lia.
   - (* if true *) rewrite eval_S in D. rewrite eval_S. cbn [ref_step] in *.
     pose proof (decided_bind _ _ D) as D1.
@@ -323,37 +327,37 @@ Proof.
     assert (Dt : decided (eval n env t)).
     { unfold decided in *. destruct (eval n env t); cbn in *; auto. }
     assert (Ht1 : R (eval n env t) (eval k env' t')) by (eapply IHn; eauto; lia).
-    destruct Ht1 as [U|Ht1]; [left; rewrite U; reflexivity|].
-    inv Ht1; try (right; constructor; auto; fail).
+    unfold OptRel.R, wrel in Ht1.
+    inv Ht1; try (rr; constructor; auto; fail).
     + (* Err thrown *)
       rewrite <- H0 in D.
       eapply wrel_bind; [exact D|intros; eapply IHn; eauto; lia|]. intros cv cv' _ Hcv D2.
-      pose proof Hcv as Hcv0. inv Hcv; try (right; constructor; auto; fail).
-      destruct ps as [|p1 [|p2 ps]]; try (right; constructor; auto; fail).
+      pose proof Hcv as Hcv0. inv Hcv; try (rr; constructor; auto; fail).
+      destruct ps as [|p1 [|p2 ps]]; try (rr; constructor; auto; fail).
       eapply app_sim; eauto; [lia|repeat constructor].
   - (* unary *) destruct k as [|k]; [lia|]. rewrite eval_S in D. rewrite !eval_S. cbn [ref_step] in *.
     eapply wrel_bind; [exact D|intros; eapply IHn; eauto; lia|]. intros xv xv' _ Hxv _.
-    right. apply ucalc_rel. auto.
+    rr. apply ucalc_rel. auto.
   - (* op *) destruct k as [|k]; [lia|]. rewrite eval_S in D. rewrite !eval_S. cbn [ref_step] in *.
     destruct (str_eqb op op_and).
     { eapply wrel_bind; [exact D|intros; eapply IHn; eauto; lia|]. intros av av' _ Hav D2.
       pose proof Hav as Hav0.
       inv Hav; try (eapply wrel_bind; [exact D2|intros; eapply IHn; eauto; lia|];
-                    intros bv bv' _ Hbv _; right; apply calc_rel; auto).
-      destruct b; [|right; constructor; constructor].
+                    intros bv bv' _ Hbv _; rr; apply calc_rel; auto).
+      destruct b; [|rr; constructor; constructor].
       eapply wrel_bind; [exact D2|intros; eapply IHn; eauto; lia|]. intros bv bv' _ Hbv _.
-      inv Hbv; right; constructor. constructor. }
+      inv Hbv; rr; constructor. constructor. }
     destruct (str_eqb op op_or).
     { eapply wrel_bind; [exact D|intros; eapply IHn; eauto; lia|]. intros av av' _ Hav D2.
       pose proof Hav as Hav0.
       inv Hav; try (eapply wrel_bind; [exact D2|intros; eapply IHn; eauto; lia|];
-                    intros bv bv' _ Hbv _; right; apply calc_rel; auto).
-      destruct b; [right; constructor; constructor|].
+                    intros bv bv' _ Hbv _; rr; apply calc_rel; auto).
+      destruct b; [rr; constructor; constructor|].
       eapply wrel_bind; [exact D2|intros; eapply IHn; eauto; lia|]. intros bv bv' _ Hbv _.
-      inv Hbv; right; constructor. constructor. }
+      inv Hbv; rr; constructor. constructor. }
     eapply wrel_bind; [exact D|intros; eapply IHn; eauto; lia|]. intros av av' _ Hav D2.
     eapply wrel_bind; [exact D2|intros; eapply IHn; eauto; lia|]. intros bv bv' _ Hbv _.
-    right. apply calc_rel; auto.
+    rr. apply calc_rel; auto.
   - (* regroup, constant on the left *)
     destruct (short_circuit_false _ Hsc) as [Ea Eo].
     destruct k as [|k]; [lia|]. rewrite eval_S in D. cbn [ref_step] in D. rewrite Ea, Eo in D.
@@ -373,7 +377,7 @@ Proof.
     assert (HB : R (eval n env b) (Ok c2)).
     { rewrite <- (eval_const k env' c2). eapply IHn; eauto. lia. }
     destruct (R_inv_ok _ _ Db HB) as (bv & Eb & Hbv). rewrite Eb. cbn [bind].
-    right. apply calc_rel; auto.
+    rr. apply calc_rel; auto.
   - (* regroup, constant on the right *)
     destruct (short_circuit_false _ Hsc) as [Ea Eo].
     destruct k as [|k]; [lia|]. rewrite eval_S in D. cbn [ref_step] in D. rewrite Ea, Eo in D.
@@ -393,66 +397,78 @@ Proof.
     assert (HB : R (eval n env b) (Ok c2)).
     { rewrite <- (eval_const k env' c2). eapply IHn; eauto. lia. }
     destruct (R_inv_ok _ _ Db HB) as (bv & Eb & Hbv). rewrite Eb. cbn [bind].
-    right. apply calc_rel; auto.
+    rr. apply calc_rel; auto.
   - (* closure literal *) destruct k as [|k]; [lia|]. rewrite !eval_S. cbn [ref_step].
-    right. constructor. destruct Henv as [H1 H2]. econstructor; eauto.
+    rr. constructor. destruct Henv as [H1 H2]. econstructor; eauto.
     intros x Hx Mx Lx. apply H2; auto. unfold fvp. cbn [fv]. rewrite Mx, Hx. reflexivity.
   - (* closure literal folded to a constant *) destruct k as [|k]; [lia|]. rewrite !eval_S. cbn [ref_step].
-    right. constructor. destruct Henv as [H1 H2]. econstructor; eauto.
+    rr. constructor. destruct Henv as [H1 H2]. econstructor; eauto.
     + right. split; auto. destruct (fv this b') eqn:F; auto.
     + intros x Hx Mx Lx. rewrite mem_name_app, (Hcl x Hx) in Mx. discriminate.
   - (* list *) destruct k as [|k]; [lia|]. rewrite eval_S in D. rewrite !eval_S. cbn [ref_step] in *.
     eapply wrel_bind; [exact D|intros; eapply list_sim; eauto; try lia; try exact Henv|]. intros vs vs' _ Hvs _.
-    right. constructor. constructor. auto.
+    rr. constructor. constructor. auto.
   - (* index *) destruct k as [|k]; [lia|]. rewrite eval_S in D. rewrite !eval_S. cbn [ref_step] in *.
     eapply wrel_bind; [exact D|intros; eapply IHn; eauto; lia|]. intros iv iv' _ Hiv D2.
     eapply wrel_bind; [exact D2|intros; eapply IHn; eauto; lia|]. intros lv lv' _ Hlv _.
-    right. apply access_list_rel; auto.
+    rr. apply access_list_rel; auto.
   - (* map *) destruct k as [|k]; [lia|]. rewrite eval_S in D. rewrite !eval_S. cbn [ref_step] in *.
     eapply map_sim; eauto; try lia; try exact Henv.
   - (* member *) destruct k as [|k]; [lia|]. rewrite eval_S in D. rewrite !eval_S. cbn [ref_step] in *.
     eapply wrel_bind; [exact D|intros; eapply IHn; eauto; lia|]. intros mv mv' _ Hmv _.
-    right. apply access_map_rel; auto.
+    rr. apply access_map_rel; auto.
   - (* call *) destruct k as [|k]; [lia|]. rewrite eval_S in D. rewrite !eval_S. cbn [ref_step] in *.
     eapply wrel_bind; [exact D|intros; eapply IHn; eauto; lia|]. intros fnv fnv' _ Hfv D2.
-    pose proof Hfv as Hfv0. inv Hfv; try (right; constructor).
+    pose proof Hfv as Hfv0. inv Hfv; try (rr; constructor).
     rewrite <- (Forall2_length' _ _ _ Hargs).
-    destruct (Nat.eqb (length args) (length ps)); [|right; constructor].
+    destruct (Nat.eqb (length args) (length ps)); [|rr; constructor].
     eapply wrel_bind; [exact D2|intros; eapply list_sim; eauto; try lia;
       (eapply env_rel_weaken; [|exact Henv]; intros y Hy; unfold fvp; rewrite fv_call, Hy; apply orb_true_r)|].
     intros vs vs' _ Hvs D3.
     eapply app_sim; eauto. lia.
   - (* static *) destruct k as [|k]; [lia|]. rewrite eval_S in D. rewrite !eval_S. cbn [ref_step] in *.
-    destruct (static_arity f) as [ar|]; [|right; constructor].
+    destruct (static_arity f) as [ar|]; [|rr; constructor].
     rewrite <- (Forall2_length' _ _ _ Hargs).
-    destruct (arity_ok ar (length args)); [|right; constructor].
+    destruct (arity_ok ar (length args)); [|rr; constructor].
     eapply wrel_bind; [exact D|intros; eapply list_sim; eauto; try lia; try exact Henv|]. intros vs vs' _ Hvs _.
-    right. apply run_static_rel; auto.
+    rr. apply run_static_rel; auto.
   - (* method *) destruct k as [|k]; [lia|]. rewrite eval_S in D. rewrite !eval_S. cbn [ref_step] in *.
     eapply wrel_bind; [exact D|intros; eapply IHn; eauto; lia|]. intros rv rv' _ Hrv D2.
     rewrite <- (Forall2_length' _ _ _ Hargs).
     destruct (field_of_rel known _ _ mname Hrv) as [|cv cv' ar Hcv A1 A2].
     + rewrite <- (method_arity_rel known _ _ mname Hrv).
       destruct (method_arity rv mname) as [ar|].
-      * destruct (arity_ok ar (length args)); [|right; constructor].
+      * destruct (arity_ok ar (length args)); [|rr; constructor].
         eapply wrel_bind; [exact D2|intros; eapply list_sim; eauto; try lia;
           (eapply env_rel_weaken; [|exact Henv]; intros y Hy; unfold fvp; rewrite fv_method, Hy; apply orb_true_r)|].
         intros vs vs' _ Hvs D3.
         eapply run_method_w; eauto. intros; eapply app_sim; eauto; lia.
       * rewrite <- (method_exists_rel known _ _ mname known Hrv).
-        inv Hrv; right; try constructor; destruct (method_exists _ mname known); constructor.
-    + destruct (Nat.eqb (length args) ar); [|right; constructor].
+        inv Hrv; rr; try constructor; destruct (method_exists _ mname known); constructor.
+    + destruct (Nat.eqb (length args) ar); [|rr; constructor].
       eapply wrel_bind; [exact D2|intros; eapply list_sim; eauto; try lia;
           (eapply env_rel_weaken; [|exact Henv]; intros y Hy; unfold fvp; rewrite fv_method, Hy; apply orb_true_r)|].
         intros vs vs' _ Hvs D3.
       eapply app_sim; eauto. lia.
   - (* a rewrite step on the optimized side *)
-    specialize (IHa env env' k (env_rel_closed _ _ _ _ _ Hclosed Henv) Hk D). destruct IHa as [U|Hr].
-    + left. rewrite (Hseq k env'); [exact U|rewrite U; discriminate].
-    + right. rewrite (Hseq k env'); [exact Hr|].
-      intros EO. rewrite EO in Hr.
+    specialize (IHa env env' k (env_rel_closed _ _ _ _ _ Hclosed Henv) Hk D). rename IHa into Hr.
+    unfold OptRel.R, wrel in *. rewrite (Hseq k env'); [exact Hr|].
+    intros EO. rewrite EO in Hr.
+    assert (Es : eval (S n) env a = OOF) by (eapply rrel_oof_inv; exact Hr).
+    rewrite Es in D. discriminate D.
+  - (* a value computed at Generate time *)
+    destruct Hg as (kg & v1 & Hev & Hrel).
+    specialize (IHa env env' k (env_rel_closed _ _ _ _ _ Hclosed Henv) Hk D).
+    destruct k as [|k]; [lia|]. rewrite eval_const.
+    assert (Et : eval (S k) env' t <> OOF -> eval (S k) env' t = Ok v1).
+    { intros N. rewrite <- (Hev env'). apply eval_agree; [rewrite Hev; discriminate|exact N]. }
+    rename IHa into Hr. unfold OptRel.R, wrel in *.
+    assert (N : eval (S k) env' t <> OOF).
+    { intros EO. rewrite EO in Hr.
       assert (Es : eval (S n) env a = OOF) by (eapply rrel_oof_inv; exact Hr).
-      rewrite Es in D. discriminate D.
+      rewrite Es in D. discriminate D. }
+    rewrite (Et N) in Hr. destruct (rrel_ok_inv_r _ _ _ Hr) as (v0 & E0 & R0).
+    rewrite E0. constructor. eapply vrel_comp; eauto.
 Qed.
 
 End Sim.
